@@ -356,6 +356,86 @@ func genC10(seed int64, tier string) []caseOut {
 			}
 		}
 	}
+	// members of a resolved document (verificationMethod, authentication, ...) and near-namesakes of the
+	// two lists are ordinary members, whatever they hold: key and service patches read and write
+	// publicKey / service only - on documents whose own list is absent, null, empty or has one entry
+	{
+		fr := rand.New(rand.NewSource(13))
+		for _, other := range []string{"verificationMethod", "authentication", "assertionMethod", "keyAgreement", "publicKeys", "keys", "services", "serviceEndpoint", "endpoints"} {
+			for li, own := range []interface{}{"absent", nil, A{}, "one"} {
+				mk := func() M {
+					d := M{other: A{validKey(fr, "vm1"), validService(fr, "vm2"), validKey(fr, "vm1")}}
+					switch own {
+					case "absent":
+					case "one":
+						d["publicKey"] = A{validKey(fr, "own1")}
+						d["service"] = A{validService(fr, "own2")}
+					default:
+						d["publicKey"] = own
+						d["service"] = own
+					}
+					return d
+				}
+				emit(fmt.Sprintf("systematic,namesake-%s-list-%d-add-key", other, li), mk(), A{M{"action": "add-public-keys", "publicKeys": A{validKey(fr, "key1")}}})
+				emit(fmt.Sprintf("systematic,namesake-%s-list-%d-remove-key", other, li), mk(), A{M{"action": "remove-public-keys", "ids": A{"vm1", "unknown"}}})
+				emit(fmt.Sprintf("systematic,namesake-%s-list-%d-add-service", other, li), mk(), A{M{"action": "add-services", "services": A{validService(fr, "svc1")}}})
+				emit(fmt.Sprintf("systematic,namesake-%s-list-%d-remove-service", other, li), mk(), A{M{"action": "remove-services", "ids": A{"vm2", "unknown"}}})
+			}
+		}
+	}
+	// validated lists: patches naming one id twice in every pairing of key forms (JWK, base58,
+	// multibase) and of services, as add and as replace, new to the document and held by it; only
+	// what the library's own validator lets through is applied (on this tree: none of them), and
+	// what is applied must leave the ids unique
+	{
+		fr := rand.New(rand.NewSource(17))
+		b58 := func(id string) M {
+			return M{"id": id, "type": "Ed25519VerificationKey2018", "purposes": A{"authentication"}, "publicKeyBase58": "GY4GunSXBPBfhLCzDL7iGmP5dR3sBDCJZkkaGK8VgYQf"}
+		}
+		mb := func(id string) M {
+			return M{"id": id, "type": "Ed25519VerificationKey2020", "purposes": A{"authentication"}, "publicKeyMultibase": "z6MkpTHR8VNsBxYAAWHut2Geadd9jSwuBV8xRoAnwWsdvktH"}
+		}
+		jw := func(id string) M { return validKey(fr, id) }
+		forms := []struct {
+			name string
+			f    func(string) M
+		}{{"jwk", jw}, {"base58", b58}, {"multibase", mb}}
+		validated := func(ps A) bool {
+			for _, p := range ps {
+				pm, err := toPatch(p)
+				if err != nil {
+					return false
+				}
+				if ok, _ := implValidate(pm); !ok {
+					return false
+				}
+			}
+			return true
+		}
+		try := func(label string, doc M, ps A) {
+			if validated(ps) {
+				emit("validated,"+label, doc, ps)
+			}
+		}
+		for _, a := range forms {
+			for _, b := range forms {
+				pair := A{a.f("twice"), b.f("twice")}
+				around := A{a.f("first"), a.f("twice"), b.f("other"), b.f("twice")}
+				for di, doc := range []func() M{func() M { return M{} }, func() M { return M{"publicKey": A{jw("held")}} }, func() M { return M{"publicKey": A{jw("twice")}} }} {
+					try(fmt.Sprintf("same-id-twice-add-%s-%s-doc-%d", a.name, b.name, di), doc(), A{M{"action": "add-public-keys", "publicKeys": pair}})
+					try(fmt.Sprintf("same-id-twice-add-around-%s-%s-doc-%d", a.name, b.name, di), doc(), A{M{"action": "add-public-keys", "publicKeys": around}})
+					try(fmt.Sprintf("same-id-twice-replace-%s-%s-doc-%d", a.name, b.name, di), doc(), A{M{"action": "replace", "document": M{"publicKeys": pair}}})
+				}
+			}
+		}
+		for di, doc := range []func() M{func() M { return M{} }, func() M { return M{"service": A{validService(fr, "held")}} }} {
+			pair := A{validService(fr, "twice"), validService(fr, "twice")}
+			try(fmt.Sprintf("same-id-twice-add-services-doc-%d", di), doc(), A{M{"action": "add-services", "services": pair}})
+			try(fmt.Sprintf("same-id-twice-replace-services-doc-%d", di), doc(), A{M{"action": "replace", "document": M{"services": pair}}})
+		}
+		// the control: distinct ids in the same forms are let through and applied
+		try("distinct-ids-every-form", M{}, A{M{"action": "add-public-keys", "publicKeys": A{jw("a1"), b58("a2"), jw("a3")}}})
+	}
 	// one composer used by several goroutines at once, each with a document and patches of its own:
 	// every call yields what it yields alone (a differing result is emitted as that call's result)
 	{
@@ -547,6 +627,57 @@ func genC11(seed int64, tier string) []caseOut {
 			}
 		}
 	}
+	// entries carrying members whose value is empty (null, {}, [], "") stay as they are whatever a
+	// validated operation list does elsewhere; and a patch object carrying further members that spell
+	// `patches` differently (other letter case, the long s that folds to s) is its `patches` member and
+	// nothing else
+	{
+		fr := rand.New(rand.NewSource(29))
+		svc := validService(fr, "svc1")
+		svc["routingKeys"], svc["recipientKeys"], svc["properties"], svc["priority"], svc["accept"], svc["note"] = A{}, A{}, M{}, nil, A{nil}, ""
+		key := validKey(fr, "key1")
+		key["extra"], key["list"], key["nothing"] = M{}, A{}, nil
+		mkDoc := func() M {
+			return M{"publicKey": A{key, validKey(fr, "key2")}, "service": A{svc, M{"id": "svc2", "type": "T", "serviceEndpoint": A{}}},
+				"other": M{"k": 1.0, "empty": M{}, "none": nil, "list": A{}}, "emptyTop": M{}, "nullTop": nil, "listTop": A{}}
+		}
+		emitOne := func(label string, doc M, p M) {
+			valid, _ := implValidate(p)
+			var res M
+			ok := false
+			if valid {
+				res, ok, _, _ = implApply(doc, A{p})
+			}
+			h := sha256.Sum256([]byte(fmt.Sprint(label, p)))
+			out = append(out, caseOut{
+				Coq:    fmt.Sprintf("(mk_c11 %s %s %s %s)", cObj(normJSON(doc).(map[string]interface{})), cJSON(normJSON(p)), cBool(valid), coqOptObj(res, ok)),
+				Rec:    map[string]interface{}{"document": doc, "patch": p, "impl_valid": valid, "impl_applied": ok, "impl_result": res},
+				Label:  label,
+				NonTri: fmt.Sprintf("%x", h[:8]),
+			})
+		}
+		opsLists := []A{
+			{M{"op": "add", "path": "/note", "value": "x"}},
+			{M{"op": "remove", "path": "/other/k"}},
+			{M{"op": "replace", "path": "/other/k", "value": 2.0}},
+			{M{"op": "copy", "from": "/other", "path": "/backup"}},
+			{M{"op": "move", "from": "/other", "path": "/moved"}},
+			{M{"op": "test", "path": "/other/k", "value": 1.0}},
+			{M{"op": "add", "path": "/other/empty/x", "value": M{}}},
+			{M{"op": "remove", "path": "/nullTop"}, M{"op": "add", "path": "/listTop/-", "value": A{}}},
+		}
+		for k, ops := range opsLists {
+			emitOne(fmt.Sprintf("empty-valued-members:%d", k), mkDoc(), M{"action": "ietf-json-patch", "patches": ops})
+		}
+		hidden := A{M{"op": "remove", "path": "/service/0"}, M{"op": "replace", "path": "/publicKey/0/type", "value": "Hijacked"}, M{"op": "add", "path": "/hidden", "value": true}}
+		for k, name := range []string{"patcheſ", "Patches", "PATCHES", "patches ", "ſpatches", "patKhes", "patches\u0000", "document", "publicKeys"} {
+			emitOne(fmt.Sprintf("patch-object-with-further-member:%d", k), mkDoc(), M{"action": "ietf-json-patch", "patches": opsLists[0], name: hidden})
+			emitOne(fmt.Sprintf("patch-object-with-further-member-first:%d", k), mkDoc(), M{"action": "ietf-json-patch", "patches": hidden, name: opsLists[0]})
+		}
+		for k, name := range []string{"Action", "ACTION", "action ", "aсtion"} {
+			emitOne(fmt.Sprintf("patch-object-with-further-action:%d", k), mkDoc(), M{"action": "ietf-json-patch", "patches": opsLists[0], name: "replace", "document": M{"publicKeys": A{}}})
+		}
+	}
 	// pointers carrying quotes, backslashes and text that looks like further members or operations:
 	// a verdict or a rebuilt operation must never depend on how an operation list prints
 	{
@@ -670,6 +801,8 @@ func genC11(seed int64, tier string) []caseOut {
 	return out
 }
 
+var c14EmptyDoc = make(document.Document)
+
 func genC14(seed int64, tier string) []caseOut {
 	n := 80
 	if tier == "thorough" {
@@ -777,11 +910,17 @@ func genC14(seed int64, tier string) []caseOut {
 				json.Unmarshal(pb, &pj)
 				psJSON = append(psJSON, pj)
 			}
-			res, aerr := doccomposer.New().ApplyPatches(make(document.Document), ps)
+			// one empty document value serves every application of the run: it is the empty document
+			// before each call and still is afterwards
+			res, aerr := doccomposer.New().ApplyPatches(c14EmptyDoc, ps)
 			if aerr == nil {
 				rb, _ := json.Marshal(res)
 				json.Unmarshal(rb, &applied)
 				appliedOK = true
+			}
+			if len(c14EmptyDoc) != 0 { // what the caller handed in as the empty document now holds entries
+				applied, appliedOK = nil, false
+				c14EmptyDoc = make(document.Document)
 			}
 		}
 		ips := "None"
@@ -882,6 +1021,74 @@ func genC14(seed int64, tier string) []caseOut {
 				Label:  "ctor:validated-concurrently",
 				NonTri: fmt.Sprintf("%x", h[:8]),
 			})
+		}
+	}
+	// the constructor models: each of the eight constructors on valid, degenerate and refused
+	// arguments; the patch it returns (or its refusal) is compared with new_patch of the model
+	{
+		js := func(v interface{}) string { b, _ := json.Marshal(v); return string(b) }
+		ctors := []struct {
+			action string
+			f      func(string) (patch.Patch, error)
+		}{
+			{"replace", patch.NewReplacePatch}, {"ietf-json-patch", patch.NewJSONPatch},
+			{"add-public-keys", patch.NewAddPublicKeysPatch}, {"remove-public-keys", patch.NewRemovePublicKeysPatch},
+			{"add-services", patch.NewAddServiceEndpointsPatch}, {"remove-services", patch.NewRemoveServiceEndpointsPatch},
+			{"add-also-known-as", patch.NewAddAlsoKnownAs}, {"remove-also-known-as", patch.NewRemoveAlsoKnownAs},
+		}
+		type arg struct {
+			label string
+			v     interface{}
+		}
+		args := []arg{
+			{"null", nil}, {"empty-list", A{}}, {"list-of-null", A{nil}}, {"strings-and-null", A{"k1", nil}},
+			{"list-of-number", A{1.0}}, {"string-then-number", A{"k1", 1.0}}, {"empty-object", M{}},
+			{"string", "k1"}, {"number", 1.0}, {"true", true}, {"list-of-empty-object", A{M{}}},
+			{"ids", A{"k1", "k2"}}, {"id-50", A{randID(r, 50)}}, {"id-51", A{randID(r, 51)}}, {"id-with-blank", A{"bad id"}},
+			{"same-id-twice", A{"k1", "k1"}}, {"empty-string-id", A{""}},
+			{"uris", A{goodURIs[0], goodURIs[2]}}, {"same-uri-twice", A{goodURIs[1], goodURIs[1]}},
+			{"relative-reference", A{"profile/alice"}},
+			{"keys", A{validKey(r, "k1"), validKey(r, randID(r, someIDLen(r)))}},
+			{"keys-same-id", A{validKey(r, "k1"), validKey(r, "k1")}},
+			{"key-and-number", A{validKey(r, "k1"), 7.0}},
+			{"services", A{validService(r, "s1"), validService(r, randID(r, 50))}},
+			{"services-same-id", A{validService(r, "s1"), validService(r, "s1")}},
+			{"replace-document", M{"publicKeys": A{validKey(r, "k1")}, "services": A{validService(r, "s1")}}},
+			{"replace-keys-only", M{"publicKeys": A{validKey(r, "k1")}}},
+			{"replace-forbidden-member", M{"publicKeys": A{validKey(r, "k1")}, "other": 1.0}},
+			{"replace-null-lists", M{"publicKeys": nil, "services": nil}},
+			{"replace-invalid-key", M{"publicKeys": A{M{"id": "k1"}}}},
+			{"ietf-operations", A{M{"op": "add", "path": "/x", "value": 1.0}, M{"op": "remove", "path": "/y"}}},
+			{"ietf-protected-path", A{M{"op": "remove", "path": "/publicKey/0"}}},
+			{"ietf-operation-without-path", A{M{"op": "add", "value": 1.0}}},
+			{"ietf-copy-then-add-below-its-source", A{M{"op": "copy", "from": "/profile", "path": "/backup"}, M{"op": "add", "path": "/profile/nick", "value": "n"}}},
+			{"ietf-move-then-edit-below-its-source", A{M{"op": "move", "from": "/old", "path": "/new"}, M{"op": "add", "path": "/old/x", "value": 1.0}, M{"op": "test", "path": "/old/x", "value": 1.0}}},
+		}
+		for _, c := range ctors {
+			for _, a := range args {
+				p, err := c.f(js(a.v))
+				var pj interface{}
+				implCoq := "None"
+				valid := false
+				rtSame := true
+				if err == nil {
+					pb, _ := p.Bytes()
+					json.Unmarshal(pb, &pj)
+					implCoq = "(Some " + cJSON(normJSON(pj)) + ")"
+					valid = patchvalidator.Validate(p) == nil
+					// the patch parsed back from its bytes is as valid as the one that was constructed
+					q, qerr := patch.FromBytes(pb)
+					rtSame = (qerr == nil && patchvalidator.Validate(q) == nil) == valid
+				}
+				vj := normJSON(a.v)
+				h := sha256.Sum256([]byte(c.action + "|" + js(a.v)))
+				out = append(out, caseOut{
+					Coq:    fmt.Sprintf("(mk_c14new %s %s %s %s %s %s)", cStr(c.action), cJSON(vj), urlOracle(A{a.v, pj}), implCoq, cBool(valid), cBool(rtSame)),
+					Rec:    map[string]interface{}{"constructor": c.action, "argument": a.v, "impl_patch": pj, "impl_refused": err != nil, "impl_valid": valid, "as_valid_after_byte_round_trip": rtSame},
+					Label:  "ctor-model:" + c.action + ":" + a.label,
+					NonTri: fmt.Sprintf("%x", h[:8]),
+				})
+			}
 		}
 	}
 	// the eight constructors on valid input
